@@ -33,6 +33,12 @@ pub fn pool() -> Vec<Op> {
         Op::ins(2, ts_min(60, 0, A)),
         Op::ins(2, ts_min(70, 0, A)),
         Op::ins(2, ts_min(75, 0, A)),
+        // "movers": operations on a third key let B move on (so that its delete of key 2
+        // becomes purgeable) without touching the tombstones of keys 1 and 2 - this is how a
+        // replica comes to hold a purgeable tombstone of one origin next to an older,
+        // not yet purgeable one of another origin (added after C08-e)
+        Op::ins(3, ts_min(82, 0, B)),
+        Op::ins(3, ts_min(88, 0, B)),
         Op::ins(1, ts_min(80, 0, B)),
         Op::del(1, ts_min(85, 0, B)),
         Op::del(2, ts_min(140, 0, A)),
@@ -351,14 +357,23 @@ pub fn run_local(tier: Tier) -> Stats {
 
 pub fn run(tier: Tier) -> i32 {
     let mut report = Report::new("C08", tier, "model_checking");
-    let cluster = crate::c08_cluster::run(tier);
+    // debugging aid: VERIF_C08_LOCAL_ONLY skips the cluster model (such a run decides nothing)
+    let local_only = std::env::var("VERIF_C08_LOCAL_ONLY").is_ok();
+    if local_only {
+        report.machinery_error("filtered run (VERIF_C08_LOCAL_ONLY)".to_string());
+    }
+    let cluster = if local_only { Stats::default() } else { crate::c08_cluster::run(tier) };
     let cluster_states = cluster.get("states");
     let cluster_transitions = cluster.get("transitions");
     let cluster_closings = cluster.get("closings");
     let cluster_purging = cluster.get("closings_where_a_purge_removed_something");
     let cluster_cut = cluster.get("paths_cut_at_event_bound");
     cluster.flush_into(&mut report);
+    let t0 = std::time::Instant::now();
     let local = run_local(tier);
+    if std::env::var("VERIF_PROGRESS").is_ok() {
+        eprintln!("[C08 local] done in {:.1}s", t0.elapsed().as_secs_f64());
+    }
     let removed = local.get("purges_that_removed_something");
     let probes = local.get("probes");
     let cmp = local.get("purge_vs_no_purge_comparisons");
